@@ -1232,6 +1232,90 @@ pub(crate) mod cwire {
     }
 }
 
+/// C02.store: the two attack-cache wrappers themselves (which c02_wire_attack_cache replaces by recorders), executed
+/// for real with the map's `get` / `insert` replaced by recorders (hashbrown does not terminate in CBMC, measured even
+/// with concrete keys): the key handed to the map is exactly (colour asked about, position key) in both directions,
+/// the stored value is the value passed in, a hit is returned as stored, and cache_attack returns the stored value.
+pub(crate) mod swire {
+    use super::*;
+    use core::borrow::Borrow;
+    use core::hash::{BuildHasher, Hash};
+    use std::collections::HashMap;
+    pub static mut GET_KEY: (u8, u64) = (0, 0);
+    pub static mut GET_CALLS: u8 = 0;
+    pub static mut INS_KEY: (u8, u64) = (0, 0);
+    pub static mut INS_VAL: u64 = 0;
+    pub static mut INS_CALLS: u8 = 0;
+    pub static mut HIT: Option<Bitboard> = None;
+    pub static mut OLD: Option<u64> = None;
+    pub struct MapStub<K, V, S, A>(core::marker::PhantomData<(K, V, S, A)>);
+    impl<K: Hash + Eq, V, S: BuildHasher, A: std::alloc::Allocator> MapStub<K, V, S, A> {
+        pub fn get<'a, Q>(_m: &'a HashMap<K, V, S, A>, k: &Q) -> Option<&'a V>
+        where
+            K: Borrow<Q>,
+            Q: Hash + Eq + ?Sized,
+        {
+            assert!(core::mem::size_of_val(k) == core::mem::size_of::<(u8, u64)>() && core::mem::size_of::<V>() == 8, "UNSUPPORTED: attack-cache entry is not (u8, u64) -> Bitboard any more");
+            unsafe {
+                GET_KEY = *(k as *const Q as *const u8 as *const (u8, u64));
+                GET_CALLS += 1;
+                match HIT.as_ref() {
+                    Some(b) => Some(&*(b as *const Bitboard as *const V)),
+                    None => None,
+                }
+            }
+        }
+        pub fn insert(_m: &mut HashMap<K, V, S, A>, k: K, v: V) -> Option<V> {
+            assert!(core::mem::size_of::<K>() == core::mem::size_of::<(u8, u64)>() && core::mem::size_of::<V>() == 8, "UNSUPPORTED: attack-cache entry is not (u8, u64) -> Bitboard any more");
+            unsafe {
+                INS_KEY = *(&k as *const K as *const u8 as *const (u8, u64));
+                INS_VAL = *(&v as *const V as *const u64);
+                INS_CALLS += 1;
+                core::mem::forget(k);
+                core::mem::forget(v);
+                match OLD {
+                    Some(o) => Some(core::ptr::read(&o as *const u64 as *const V)),
+                    None => None,
+                }
+            }
+        }
+    }
+}
+
+#[kani::proof]
+#[kani::unwind(8)]
+#[kani::stub(std::collections::HashMap::get, swire::MapStub::get)]
+#[kani::stub(std::collections::HashMap::insert, swire::MapStub::insert)]
+fn c02_attack_store_wire() {
+    let mut t = Targets::verif_blank();
+    let white: bool = crate::verif_ref::vany();
+    let key: u64 = crate::verif_ref::vany();
+    let v: u64 = crate::verif_ref::vany();
+    let hit: Option<u64> = if crate::verif_ref::vany() { Some(crate::verif_ref::vany()) } else { None };
+    let old: Option<u64> = if crate::verif_ref::vany() { Some(crate::verif_ref::vany()) } else { None };
+    unsafe {
+        swire::GET_CALLS = 0;
+        swire::INS_CALLS = 0;
+        swire::HIT = hit.map(Bitboard);
+        swire::OLD = old;
+    }
+    let c = color(white);
+    let got = t.get_cached_attack(c, key);
+    unsafe {
+        assert!(swire::GET_CALLS == 1 && swire::INS_CALLS == 0, "a lookup reads the map once and writes nothing");
+        assert!(swire::GET_KEY == (c as u8, key), "looked up under (colour asked about, position key)");
+    }
+    assert!(got.map(|b| b.0) == hit, "a stored entry is returned as stored, a missing one as None");
+    let r = t.cache_attack(c, key, Bitboard(v));
+    unsafe {
+        assert!(swire::INS_CALLS == 1 && swire::GET_CALLS == 1, "a store writes the map once");
+        assert!(swire::INS_KEY == (c as u8, key) && swire::INS_VAL == v, "stored under (colour asked about, position key), value as passed");
+    }
+    assert!(r.0 == v || old == Some(r.0), "cache_attack hands back an attack set for this key (the new one, or the one it replaced)");
+    assert!(Color::White as u8 != Color::Black as u8, "the two colours map to different key bytes");
+    core::mem::forget(t);
+}
+
 /// `hit` is concrete per harness and the lists involved are empty, so that no list of symbolic length or
 /// content is cloned: the subject here is the KEY (and that a hit short-circuits generation), and a small
 /// encoding keeps the counterexample trace small enough for Kani's concrete playback to digest.
